@@ -129,6 +129,18 @@ def kernel_obligations(ck):
     C10.kernel_frame(ck)
 
 
+def _same_column(x, y):
+    x, y = np.asarray(x), np.asarray(y)
+    if x.dtype.kind in "fc" and y.dtype.kind in "fc":
+        return bool(np.array_equal(x, y, equal_nan=True))
+    if x.shape != y.shape:
+        return False
+    try:
+        return bool(np.all(x == y))
+    except Exception:
+        return [str(a) for a in x.ravel()] == [str(b) for b in y.ravel()]
+
+
 def bounded_seeded(ck):
     """two seeded end-to-end runs per cell of a reduced cross product, two schedulers, compared bit for bit"""
     import contextlib
@@ -165,7 +177,7 @@ def bounded_seeded(ck):
         b = run(c, "threads")
         n += 2
         tables[key] = a
-        if a.colnames != b.colnames or any(not np.array_equal(np.asarray(a[k]), np.asarray(b[k]), equal_nan=True) for k in a.colnames):
+        if a.colnames != b.colnames or any(not _same_column(a[k], b[k]) for k in a.colnames):
             fails.append({"obligation": "bounded.reproducible", "clause": "seeded runs are bit-identical under the synchronous and the threaded scheduler", "input": {"config": list(key), "seed": ck.seed + 11}, "observed": "tables differ"})
         for k, v in a.meta.items():
             if k in OPT_KEYS + RAD_KEYS:
@@ -179,7 +191,7 @@ def bounded_seeded(ck):
                 for cname in cols + BASE_COLS[mode]:
                     if cname in ("times",):
                         continue
-                    if not np.array_equal(np.asarray(t[cname]), np.asarray(u[cname]), equal_nan=True):
+                    if not _same_column(t[cname], u[cname]):
                         fails.append({"obligation": "bounded.isolation", "clause": "switching the other channel off leaves column %s unchanged" % cname, "input": {"config": [mode, spectrum], "seed": ck.seed + 11}, "observed": "column differs"})
                         break
                 for k in keys:
